@@ -3,11 +3,13 @@
    are pairwise disjoint and aligned), over the element-count expressions TRANSLATED from matrix.rs on
    every run (allocation side: MatrixLayout::new; reference side: fieds_from_ptr); totality of the
    greedy entry point (C01_greedy_decision: never Panicked) and saturation of the linear scorers
-   (C03_no_wrap).  PARTIAL: absence of panics / independence of the scratch row for the DP
-   (DP_no_panic_stmt, C10_history_stmt in Spec/Statements.v) is validated by the call-sequence harness
-   (one shared matcher vs a fresh matcher per call, debug profile with overflow checks) but not yet proved. *)
+   (C03_no_wrap); the optimal entry point including the DP never panics (C10_dp_no_panic) and its result
+   is independent of the scratch row's prior content (C10_history).  Not modelled: pointer provenance of
+   the slab views, the back-pointer cells' flat layout (the model keeps them per row), substring /
+   prefix / postfix / exact panic-freedom beyond what C05_substring / C01 state (validated by the
+   call-sequence harness in the debug profile). *)
 From Coq Require Import NArith List Bool.
-From NV Require Import Model.Matcher Spec.Matching Spec.Statements Proofs.LayoutFacts Proofs.C01Facts Proofs.ScoreFacts.
+From NV Require Import Model.Matcher Spec.Matching Spec.Statements Proofs.LayoutFacts Proofs.C01Facts Proofs.ScoreFacts Proofs.DPFacts.
 Local Open Scope N_scope.
 
 Theorem C10_layout : C10_layout_stmt.
@@ -33,6 +35,16 @@ Qed.
 Theorem C10_no_wrap : C03_no_wrap_stmt.
 Proof. exact ScoreFacts.C03_no_wrap_weak. Qed.
 
+(* the optimal entry point, DP included, never panics: no u16 underflow in the row-offset arithmetic, no
+   out-of-range index in score_row / reconstruct, the "caught by prefilter" assertion never fires *)
+Theorem C10_dp_no_panic : DP_no_panic_stmt.
+Proof. exact DPFacts.DP_no_panic. Qed.
+
+(* history independence: the result does not depend on what earlier calls left in the scratch row
+   (no slot is read before it is written in the same call) *)
+Theorem C10_history : C10_history_stmt.
+Proof. exact DPFacts.C10_history. Qed.
+
 (* non-vacuity: alloc accepts non-trivial sizes *)
 Example C10_nonvacuous : slab_alloc_ok Ascii 3000 33 = true /\ slab_alloc_ok Unicode 2048 50 = true /\
                           slab_alloc_ok Unicode 3000 33 = false.
@@ -42,3 +54,5 @@ Print Assumptions C10_layout.
 Print Assumptions C10_view_counts.
 Print Assumptions C10_greedy_total.
 Print Assumptions C10_no_wrap.
+Print Assumptions C10_dp_no_panic.
+Print Assumptions C10_history.
